@@ -570,6 +570,8 @@ def _check_block(case):
             raise _Fail('create_raised' + tag, 'creation messages', 'exception code %d' % code)
         if any(v[0] == 'm' for v in spec):
             return None         # no device format to check raw-memory entries against
+        if wires and wires[0][2][:1] == [3] and tag and tag != '_after_reconnect':
+            raise _Fail('start_skips_create' + tag, 'create message (the device does not hold the block)', wires)
         if wires and wires[0][2][:1] == [3] and tag:
             raise _Fail('stale_added_flag_after_reconnect_start_skips_create',
                         'create message for the re-added block (the device was reset)', wires,
@@ -583,39 +585,44 @@ def _check_block(case):
     wires = check_creation('')
     if wires is None:
         return
-    # acknowledgements
-    w, code, obs = ev(['pkt', 1, [6, cfg.id, 0]])
     period = ms // 10
-    if [x[2] for x in w] != [[3, cfg.id, period]] or not cfg.added:
-        raise _Fail('create_ack_not_followed_by_start', [[3, cfg.id, period], True], [[x[2] for x in w], cfg.added])
-    if [o for o in obs if o[0] == 2] != [[2, 2, 0, 1, 1]]:
-        raise _Fail('added_cb_mismatch', [[2, 2, 0, 1, 1]], obs)
-    w, code, obs = ev(['pkt', 1, [3, cfg.id, 0]])
-    if not cfg.started or obs != [[2, 4, 0, 1, 1]] or w:
-        raise _Fail('start_ack_flag_or_cb', [True, [[2, 4, 0, 1, 1]]], [cfg.started, obs])
-    # samples
     got_samples = []
     cfg.data_received_cb.add_callback(lambda ts, data, c: got_samples.append((ts, dict(data), c)))
-    for ts, vals in case['samples']:
-        payload = []
-        for (n, f, _m), x in zip(want_vars, vals):
-            if f in INT_RANGE:
-                payload += list(struct.pack(DEV_FMT[f], x))
-            else:
-                payload += list(x.to_bytes(DEV_SIZE[f], 'little'))
-        del got_samples[:]
-        w, code, obs = ev(['pkt', 2, [cfg.id] + list(ts.to_bytes(3, 'little')) + payload])
-        if code or len(got_samples) != 1:
-            raise _Fail('sample_not_delivered_once', 1, [code, len(got_samples)])
-        gts, gd, gc = got_samples[0]
-        if gts != ts or gc is not cfg:
-            raise _Fail('sample_timestamp', ts, gts)
-        names = [d.name_str(n) for n, f, _m in want_vars]
-        if list(gd.keys()) != names:
-            raise _Fail('sample_names', names, list(gd.keys()))
-        for (n, f, _m), x in zip(want_vars, vals):
-            if not _same_value(f, x, gd[d.name_str(n)]):
-                raise _Fail('sample_value', [f, x], repr(gd[d.name_str(n)]), 'variable %s' % d.name_str(n))
+
+    def device_acks(tag, samples):
+        """the device holds the block now and acknowledges: create ack -> added + added_cb + START(period);
+        start ack -> started + started_cb; then its data packets must reach the callback"""
+        w, code, obs = ev(['pkt', 1, [6, cfg.id, 0]])
+        if code or [x[2] for x in w] != [[3, cfg.id, period]] or not cfg.added:
+            raise _Fail('create_ack_not_followed_by_start' + tag, [[3, cfg.id, period], 'added=True'],
+                        [[x[2] for x in w], 'added=%s' % cfg.added, 'exception code %d' % code],
+                        'the device acknowledged CREATE for block id %d' % cfg.id)
+        if [o for o in obs if o[0] == 2] != [[2, 2, 0, 1, 1]]:
+            raise _Fail('added_cb_mismatch' + tag, [[2, 2, 0, 1, 1]], obs)
+        w, code, obs = ev(['pkt', 1, [3, cfg.id, 0]])
+        if not cfg.started or obs != [[2, 4, 0, 1, 1]] or w:
+            raise _Fail('start_ack_flag_or_cb' + tag, [True, [[2, 4, 0, 1, 1]]], [cfg.started, obs])
+        for ts, vals in samples:
+            payload = []
+            for (n, f, _m), x in zip(want_vars, vals):
+                if f in INT_RANGE:
+                    payload += list(struct.pack(DEV_FMT[f], x))
+                else:
+                    payload += list(x.to_bytes(DEV_SIZE[f], 'little'))
+            del got_samples[:]
+            w, code, obs = ev(['pkt', 2, [cfg.id] + list(ts.to_bytes(3, 'little')) + payload])
+            if code or len(got_samples) != 1:
+                raise _Fail('sample_not_delivered_once' + tag, 1, [code, len(got_samples)])
+            gts, gd, gc = got_samples[0]
+            if gts != ts or gc is not cfg:
+                raise _Fail('sample_timestamp', ts, gts)
+            names = [d.name_str(n) for n, f, _m in want_vars]
+            if list(gd.keys()) != names:
+                raise _Fail('sample_names', names, list(gd.keys()))
+            for (n, f, _m), x in zip(want_vars, vals):
+                if not _same_value(f, x, gd[d.name_str(n)]):
+                    raise _Fail('sample_value', [f, x], repr(gd[d.name_str(n)]), 'variable %s' % d.name_str(n))
+    device_acks('', case['samples'])
     # stop / delete
     w, code, obs = ev(['stop', 0])
     if [x[2] for x in w] != [[4, cfg.id]]:
@@ -630,6 +637,24 @@ def _check_block(case):
         w, code, obs = ev(['pkt', 1, [2, cfg.id, 0]])
         if cfg.added or cfg.started or obs != [[2, 2, 0, 1, 0]]:
             raise _Fail('delete_ack_flag_or_cb', [False, False], [cfg.added, cfg.started, obs])
+        rs = case.get('restart')
+        if rs:
+            # same session: the deleted configuration is started again (directly, or after add_config)
+            if rs == 'addstart':
+                names0 = [(v.name, v.fetch_as) for v in cfg.variables]
+                w, code, obs = ev(['addcfg', 0])
+                if code or w or [(v.name, v.fetch_as) for v in cfg.variables] != names0:
+                    raise _Fail('readd_same_session', 'accepted, unchanged, nothing sent',
+                                [code, w, [(v.name, v.fetch_as) for v in cfg.variables]])
+            if check_creation('_after_delete') is None:
+                return
+            device_acks('_after_delete', case['samples'][:1])
+            w, code, obs = ev(['stop', 0])
+            if [x[2] for x in w] != [[4, cfg.id]]:
+                raise _Fail('stop_packet_after_delete', [[4, cfg.id]], w)
+            w, code, obs = ev(['pkt', 1, [4, cfg.id, 0]])
+            if cfg.started or obs != [[2, 4, 0, 1, 0]]:
+                raise _Fail('stop_ack_flag_or_cb_after_delete', [False, [[2, 4, 0, 1, 0]]], [cfg.started, obs])
     if not case.get('reconnect'):
         return
     # reconnect (possibly to a device whose TOC differs: other indices, variables removed or added) and
@@ -664,10 +689,7 @@ def _check_block(case):
     wires = check_creation('_after_reconnect')
     if wires is None:
         return
-    w, code, obs = ev(['pkt', 1, [6, cfg.id, 0]])
-    if [x[2] for x in w] != [[3, cfg.id, period]] or not cfg.added:
-        raise _Fail('create_ack_not_followed_by_start_after_reconnect', [[3, cfg.id, period], True],
-                    [[x[2] for x in w], cfg.added])
+    device_acks('_after_reconnect', [])
 
 
 def _check_sync(case):
@@ -771,6 +793,8 @@ def _gen_block_case(rng, force=None):
         samples.append([rng.choice([0, 0xFFFFFF, rng.getrandbits(24), rng.getrandbits(24)]), vals])
     case = {'kind': 'block', 'toc': toc, 'ms': ms, 'vars': vs, 'samples': samples,
             'delete': rng.random() < 0.5, 'reconnect': rng.random() < 0.6}
+    if case['delete']:
+        case['restart'] = rng.choice([None, 'start', 'start', 'addstart'])
     if case['reconnect']:
         r = rng.random()
         used = [v[1] for v in vs if v[0] != 'm']
